@@ -134,33 +134,8 @@ def run(prog: Program, rep: Report, tier: str):
              "partner is the first result of self.shuffle(item=own) (or the partner-indexed clone of own); L is a view / element "
              "of the variable stored as ctx['lambda'], and no definition of that variable lies between a mix and the "
              "ctx store")
-    mixes = []
-    for n, c in fa.calls_named("add_"):
-        f = c.func
-        if not (isinstance(f, ast.Attribute) and isinstance(f.value, ast.Call) and isinstance(f.value.func, ast.Attribute)
-                and f.value.func.attr == "mul_" and len(c.args) == 1 and len(f.value.args) == 1):
-            continue
-        own = f.value.func.value
-        L1 = f.value.args[0]
-        inner = c.args[0]
-        mixes.append((n, c, own, L1, inner))
-    # the same mix written as two in-place operator statements:  own *= L ; own += partner.mul_(1 - L)
-    for n, nd in cfg.nodes.items():
-        st = nd.ast if nd.kind == "stmt" else None
-        if not (isinstance(st, ast.AugAssign) and isinstance(st.op, ast.Add)):
-            continue
-        prev = [p_ for p_ in cfg.g.predecessors(n)]
-        if len(prev) != 1:
-            continue
-        pst = cfg.nodes[prev[0]].ast if cfg.nodes[prev[0]].kind == "stmt" else None
-        if isinstance(pst, ast.AugAssign) and isinstance(pst.op, ast.Mult) and ast.dump(pst.target) == ast.dump(st.target):
-            own_l = ast.parse(ast.unparse(st.target), mode="eval").body
-            call = ast.Call(func=ast.Attribute(value=ast.Call(func=ast.Attribute(value=own_l, attr="mul_", ctx=ast.Load()),
-                                                              args=[pst.value], keywords=[]), attr="add_", ctx=ast.Load()),
-                            args=[st.value], keywords=[])
-            ast.copy_location(call, st)
-            ast.fix_missing_locations(call)
-            mixes.append((n, call, own_l, pst.value, st.value))
+    from ..rules.mixes import inplace_mixes
+    mixes = inplace_mixes(fa)
     rep.floor("in-place mix statements", len(mixes), 4)
     lam_store = [(n, val) for n, var, val in fa.stores() if var == "ctx[]" and val is not None
                  and any(isinstance(t, ast.Subscript) and isinstance(t.slice, ast.Constant) and t.slice.value == "lambda"
